@@ -227,6 +227,8 @@ def replay_spellings(a):
         ("rule r {\n  Resources.q.Properties.d == \"say \\\"hi\\\"\"\n}\n", "rule r {\n  Resources.q.Properties.d == 'say \"hi\"'\n}\n"),
         ("rule r {\n  Resources.q.Properties.l[1] == 2\n}\n", "rule r {\n  Resources.q.Properties.l.1 == 2\n}\n"),
         ("rule r {\n  a == 1\n}\n", "rule r {\n  this.a == 1\n}\n"),
+        ("rule r {\n  Resources.*[ Type == 'AWS::S3::Bucket' ].Properties.x == 2\n}\n", "rule r {\n  Resources.*[ this.Type == 'AWS::S3::Bucket' ].Properties.x == 2\n}\n"),
+        ("rule r {\n  Resources.*[ Properties.x == 1 ] {\n    Properties.s == 'a'\n  }\n}\n", "rule r {\n  Resources.*[ this.Properties.x == 1 ] {\n    this.Properties.s == 'a'\n  }\n}\n"),
         ("rule r {\n  a is_int\n  Resources.q.Properties.s is_string\n  Resources.q.Properties.l is_list\n  Resources.q is_struct\n}\n",
          "rule r {\n  a IS_INT\n  Resources.q.Properties.s IS_STRING\n  Resources.q.Properties.l IS_LIST\n  Resources.q IS_STRUCT\n}\n"),
         ("rule r {\n  AWS::SQS::Queue {\n    Properties.x == 1\n  }\n}\n", "rule r {\n  Resources.*[ Type == 'AWS::SQS::Queue' ] {\n    Properties.x == 1\n  }\n}\n"),
@@ -259,4 +261,13 @@ def replay_spellings(a):
 
 
 from mirblocks import type_block, guard_block
-SITES = {"C14": [keyword_tables, type_block_desugar, parser_clause_wiring, quoting_wiring, type_block, guard_block]}
+
+
+def this_and_index_forms(a):
+    """evaluation side of two spellings: `this` continues with the value it stands on (wherever it is written, also inside a
+    filter) and `.n` on a list is the `[n]` lookup - the dispatcher obligations of C01, run here because C14 names both"""
+    import mirquery
+    mirquery.q_dispatch(a)
+
+
+SITES = {"C14": [keyword_tables, type_block_desugar, parser_clause_wiring, quoting_wiring, type_block, guard_block, this_and_index_forms]}
